@@ -69,7 +69,17 @@ fn verif_chum(chum: &ChannelUserModes) -> String {
     verif_esc(&s)
 }
 
+// opaque holder of the state write lock (released on drop).
+#[allow(dead_code)]
+pub(crate) struct VerifStateHold<'a>(tokio::sync::RwLockWriteGuard<'a, VolatileState>);
+
 impl MainState {
+    // take the state write lock and hand the guard to the harness: while it is held, the
+    // handlers of all connections queue on the lock in the order their commands arrive.
+    pub(crate) async fn verif_hold_state(&self) -> VerifStateHold<'_> {
+        VerifStateHold(self.state.write().await)
+    }
+
     // dump whole volatile state as lines: 'st <kind> ...'.
     pub(crate) async fn verif_dump(&self) -> String {
         let state = self.state.read().await;
